@@ -56,6 +56,8 @@ type reqDef struct {
 	Container int    `json:"container"` // container slot of that pod (0..1)
 	Cmd       string `json:"cmd"`
 	IfName    string `json:"ifname"`
+	// Cmd TRUNC: not a request - the daemon died while it was writing the container's state file, Cut/8 of the record reached the disk
+	Cut int `json:"cut,omitempty"`
 }
 
 type failDef struct {
@@ -137,6 +139,16 @@ func genC12() *rapid.Generator[c12Case] {
 				r.Cmd = "DEL"
 			}
 			c.Reqs = append(c.Reqs, r)
+		}
+		if rapid.IntRange(0, 4).Draw(t, "truncated") == 0 {
+			// after some request of a container that may have left a state file: the file is cut short; the container is then deleted
+			// (twice: kubelet repeats the DEL)
+			at := rapid.IntRange(0, len(c.Reqs)-1).Draw(t, "truncAt")
+			rq := c.Reqs[at]
+			tr := reqDef{Pod: rq.Pod, Container: rq.Container, Cmd: "TRUNC", Cut: rapid.IntRange(0, 7).Draw(t, "cut")}
+			dl := reqDef{Pod: rq.Pod, Container: rq.Container, Cmd: "DEL", IfName: rq.IfName}
+			c.Reqs = append(c.Reqs[:at+1:at+1], append([]reqDef{tr}, c.Reqs[at+1:]...)...)
+			c.Reqs = append(c.Reqs, dl, dl)
 		}
 		nf := rapid.IntRange(0, 4).Draw(t, "nFails")
 		for i := 0; i < nf; i++ {
@@ -294,11 +306,13 @@ func checkC12(c c12Case, r *vcore.Rec) *vcore.Failure {
 	type contState struct {
 		saved  []modelNet // nil = no state file
 		counts map[string]int
+		// corrupt: the state file holds only a prefix of the record (the daemon died while writing it)
+		corrupt bool
 	}
 	states := map[[2]int]*contState{}
 	expectLog := map[[2]int][]expected{}
 	expectOK := make([]bool, len(c.Reqs))
-	injected, multi := false, false
+	injected, multi, truncated := false, false, false
 	for ri, rq := range c.Reqs {
 		k := [2]int{rq.Pod, rq.Container}
 		st := states[k]
@@ -339,7 +353,22 @@ func checkC12(c c12Case, r *vcore.Rec) *vcore.Failure {
 			st.saved = nil
 			return true
 		}
+		if rq.Cmd == "TRUNC" {
+			if st.saved != nil {
+				st.corrupt = true
+			}
+			expectOK[ri] = true
+			continue
+		}
+		if rq.Cmd == "DEL" && st.corrupt {
+			// the record cannot be read: this DEL reports it and throws it away without invoking anything; later DELs succeed
+			st.corrupt, st.saved = false, nil
+			expectOK[ri] = false
+			truncated = true
+			continue
+		}
 		if rq.Cmd == "ADD" {
+			st.corrupt = false
 			nets := c.selectNets(c.Pods[rq.Pod], rq.IfName)
 			if len(nets) >= 2 {
 				multi = true
@@ -376,6 +405,14 @@ func checkC12(c c12Case, r *vcore.Rec) *vcore.Failure {
 	bodies := make([]string, len(c.Reqs))
 	run := func(ri int) {
 		rq := c.Reqs[ri]
+		if rq.Cmd == "TRUNC" {
+			path := filepath.Join("/var/lib/cni/galaxy", cids[[2]int{rq.Pod, rq.Container}])
+			if data, err := os.ReadFile(path); err == nil {
+				_ = os.WriteFile(path, data[:len(data)*rq.Cut/8], 0600)
+			}
+			results[ri] = 200
+			return
+		}
 		results[ri], bodies[ri] = d.Request(rq.Cmd, cids[[2]int{rq.Pod, rq.Container}], "ns1", c.Pods[rq.Pod].Name, rq.IfName, "")
 	}
 	overlapped := false
@@ -412,6 +449,7 @@ func checkC12(c c12Case, r *vcore.Rec) *vcore.Failure {
 			trunc(string(l.Stdin), 300))
 	}
 	r.ClassIf(injected, "failure_injected")
+	r.ClassIf(truncated, "state_file_cut_short")
 	r.ClassIf(multi, "multi_network")
 	r.ClassIf(overlapped, "containers_interleaved")
 	if multi && (injected || overlapped) {
